@@ -555,6 +555,18 @@ def r17_4(chk, mod, data, params):
                                  ((c.as_atom()[0] == "in") == pol) and c.as_atom()[1].key() == key.key()
                                  and c.as_atom()[2].key() == tab.key() for c, pol in e.guards)
                         what = f"Element(*{tab}[k]) is returned only under a membership guard on the same key k"
+                        # ... and k is the text the caller gave, normalised and nothing else: the whole leading letter run of a label,
+                        # the stripped and capitalised string (D read as H) for a symbol, its lower case for a name
+                        if q == "Element.from_label":
+                            canon = {"re.match(_SYMBOL_REGEX, label).group(1).strip().capitalize()".replace("label", ev.param_names[0])}
+                        else:
+                            s0 = ev.param_names[-1]
+                            K = f"{s0}.strip().capitalize()"
+                            D = f"(ite (eq 'D' {K}) 'H' {K})"
+                            canon = {K, D, f"{K}.lower()", f"{D}.lower()", f"{s0}.strip().lower()"}
+                        chk.ob("R17.4", MOD, q, f"the key looked up in {tab} is the caller's text in its normal form (whole letter run / strip + capitalize, "
+                               "lower case for names), not a part or a rewriting of it", key.key() in canon, node=e.node,
+                               fingerprint=f"key-form:{tab}:{cn}", expected=sorted(canon)[0], found=str(key)[:140])
                 elif len(args) == 2 and args[1].as_atom() and args[1].as_atom()[0] == "starred":
                     row = args[1].as_atom()[1].as_atom()
                     ok = bool(row and row[0] == "sub" and row[1].key() == "_ELEMENT_DATA"
